@@ -323,6 +323,13 @@ def _big_cases(tier, seed):
         P[i][j] = P[j][i] = 1
     P[8][0] = 1
     out.append(P)
+    # an undirected tree on 16 nodes: 15 undirected edges, 16 extensions out of 2^15 orientations
+    pt = 16
+    T16 = [[0] * pt for _ in range(pt)]
+    for k in range(1, pt):
+        a, b = (3 * k + seed) % pt, (3 * ((k - 1) // 3) + seed) % pt
+        T16[a][b] = T16[b][a] = 1
+    out.append(T16)
     # an undirected 13-cycle (every acyclic orientation creates a v-structure: NO extension), and the directed path
     # 0 -> 1 -> ... -> 11 closed by 11 - 12 - 0 (every orientation of the two edges closes a cycle or adds a collider)
     pc = 13
